@@ -548,8 +548,8 @@ func checkMain(prop, tier string) int {
 	}
 	ev := map[string]any{
 		"property_id": prop, "tier": tier, "seed": seed, "level": "model_checking",
-		"wall_s":     round2(time.Since(t0).Seconds()),
-		"violations": violations,
+		"wall_s":      round2(time.Since(t0).Seconds()),
+		"violations":  violations,
 		"assumptions": assumptionsFor(prop),
 		"coverage": map[string]any{
 			"states": total.States, "transitions": total.Transitions,
